@@ -2375,6 +2375,13 @@ class StridedInterval:
         :param new_length: New length after zero-extension
         :return: A new StridedInterval
         """
+        if not self.is_empty and self.lower_bound > self.upper_bound:
+            # The interval straddles the south pole, which is no longer a neighbour of zero in the longer
+            # representation: extend the two halves and join them
+            si = StridedInterval.least_upper_bound(*[piece.zero_extend(new_length) for piece in self._ssplit()])
+            si.uninitialized = self.uninitialized
+            return si
+
         si = self.copy()
         si._bits = new_length
 
